@@ -58,7 +58,9 @@ pub fn jobs(ctx: &Ctx) -> Vec<RJob> {
             let size = 17 + 4 * v;
             let mut spec = render::random_svg_spec(&mut rng, size, true);
             if i % 3 == 0 && spec.image.is_none() {
-                spec.image = Some(render::random_image_string(&mut rng));
+                // two in three are the ordinary strings; the rest are references as they come out of a file or a MIME
+                // encoder (wrapped base64 with LF / CR LF / CR, a trailing line end, TABs, surrounding blanks)
+                spec.image = Some(render::random_image_string_raw(&mut rng));
             }
             if v >= 21 && spec.layers.len() > 2 {
                 spec.layers.truncate(2);
@@ -194,6 +196,12 @@ pub fn observe(_ctx: &Ctx, st: &mut Stats, rj: &RJob) {
                 if !i.is_ascii() {
                     st.count("non_ascii_image_strings", 1);
                 }
+                if i.contains(['\t', '\n', '\r']) {
+                    st.count("image_strings_with_tab_or_line_end", 1);
+                    if i.contains(";base64,") || i.contains(";BASE64,") {
+                        st.count("line_wrapped_base64_image_strings", 1);
+                    }
+                }
             }
             st.distinct(mix(rj.job.key(&cfg.input), oracle::rng::fnv(rj.spec.describe().as_bytes())));
             st.sample(61, || json!({"qr": cfg.describe(), "spec": rj.spec.to_json(), "svg_len": svg.len(), "subpaths": c.subpaths}));
@@ -227,14 +235,14 @@ pub fn run(ctx: &Ctx) -> Report {
     let st = pool::run(&jobs, ctx.remaining(), |st, job, _| observe(ctx, st, job));
     let mut rep = Report::new(
         st,
-        "jobs = versions {1,2,6,7,14,21,27,40} (thorough: all 40) x random builder programs: margin in {default,0,1,4,7,size,random}, 0..5 shape()/shape_color() calls over the 6 built-in shapes with repeats, colours as [u8;3], [u8;4] (alpha 0,1,127,254,255), #hex and named strings, optional image string from URLs / data URIs / paths / strings with & < > \" ' / non-ASCII; the document is parsed by a strict XML parser, then: viewBox and background rect = size+2*margin, background/layer fills, one <path> per layer in call order, every sub-path's bounding box (own path interpreter incl. arcs) inside exactly one unit cell with extent >= 0.3, the multiset of cells == dark modules shifted by margin (none on light modules or the quiet zone), symbols whose dark-module count is exactly 256 .. 16384 (powers of two, multiples of 4096; found by an oracle-judged search); a layer may be split over several consecutive <path> elements; exactly one <image> whose parsed href equals the configured string (none otherwise); distinct key = (qr options, payload hash, spec); every document non-trivial",
+        "jobs = versions {1,2,6,7,14,21,27,40} (thorough: all 40) x random builder programs: margin in {default,0,1,4,7,size,random}, 0..5 shape()/shape_color() calls over the 6 built-in shapes with repeats, colours as [u8;3], [u8;4] (alpha 0,1,127,254,255), #hex and named strings, optional image string from URLs / data URIs / paths / strings with & < > \" ' / non-ASCII; the document is parsed by a strict XML parser, then: viewBox and background rect = size+2*margin, background/layer fills, one <path> per layer in call order, every sub-path's bounding box (own path interpreter incl. arcs) inside exactly one unit cell with extent >= 0.3, the multiset of cells == dark modules shifted by margin (none on light modules or the quiet zone), symbols whose dark-module count is exactly 256 .. 16384 (powers of two, multiples of 4096; found by an oracle-judged search); a layer may be split over several consecutive <path> elements; exactly one <image> whose parsed href equals the configured string, TAB/LF/CR allowed to read back as blanks (none otherwise); one image string in nine is a line-wrapped base64 data URI or carries TAB / line ends / surrounding blanks; distinct key = (qr options, payload hash, spec); every document non-trivial",
     );
     rep.expected_sets = vec![("shapes", 6), ("layer_counts", 6), ("xml_special_chars_in_image_string", 5)];
     rep.required_sets = vec![("shapes", 6), ("xml_special_chars_in_image_string", 5)];
     rep.min_evaluations = 800;
     rep.assumptions = vec![
         "Shape::Command (user callback) is outside the property's quantifier".into(),
-        "image strings are drawn from characters legal in XML 1.0 excluding TAB/LF/CR (attribute-value normalisation)".into(),
+        "image strings are drawn from characters legal in XML 1.0; a TAB/LF/CR in the configured string may come back as a blank (attribute-value normalisation of the literal character) or as itself (character reference), never dropped".into(),
         "colour strings are hex or CSS names (no XML-special characters); the property speaks about array colours and the image string only".into(),
     ];
     rep
